@@ -36,6 +36,25 @@ def classify(c):
         # path-id local side: the remote user renames a file and re-creates the old name while the engine is down; after
         # the restart (sync loop first) the engine re-uploads bytes the remote already holds (wasted transfer, no loss)
         return "G10-path-id-rename-recreate-reuploads"
+    if c["property"] == "C06" and kind == "restart-not-propagated" and job["cfg"] == "pci" and \
+            any(op[0] == "rename" and op[1].lower() == op[2].lower() for _, op in ops) and any(op[0] == "write" for _, op in ops):
+        # path-addressed, case-insensitive local account: while the engine is down a synced file is renamed to another
+        # spelling of its name AND edited; after a walk fallback the new spelling is a new id, its upload collides with the
+        # peer's old spelling, and the edit ends up in a local .conflicted file instead of reaching the peer
+        return "G14-case-rename-plus-edit-offline-walk-conflict"
+    if c["property"] == "C02" and job.get("base") == "B3" and kind == "lost" and job["cfg"] in ("op", "pp", "po", "pci"):
+        # path-id side renames b->c and then a->b (seen as delete/create pairs) while the peer's b holds the newest bytes:
+        # the peer's b is deleted out of the way of the incoming a->b, and its entry's deletion is then propagated to the
+        # renamed copy c - the newest bytes survive on neither side
+        return "G15-path-id-rename-chain-deletes-displaced-file-on-both-sides"
+    if c["property"] in ("C04", "C01", "C03") and job["cfg"] in ("po", "pp", "op", "pci", "plci"):
+        for side in (0, 1):
+            sc = (job.get("scripts") or [[], []])[side]
+            rn = [op for op in sc if op[0] == "rename"]
+            if len(rn) >= 3 and rn[0][2] == rn[-1][1] and any(o[2] == rn[0][1] for o in rn[1:]):
+                # two files swap names through a temporary name; with a path-id peer the last step (temp -> second name) is
+                # applied as a fresh create and the temporary name stays behind as an extra file on both sides
+                return "G16-rename-cycle-path-id-peer-leaves-temporary-name"
     if any(len(op) > 2 and op[0] in ("write", "create") and op[2] == "SAME" for _, op in ops) and \
             any(op[0] == "rename" for _, op in ops):
         # both sides wrote identical bytes and one also renamed: the silent equal-content merge records the current
@@ -45,6 +64,25 @@ def classify(c):
         # a name is re-used by a different object (folder renamed away / deleted, then a new object created under the old
         # name) and the old object's events are delivered late, duplicated or after the new object's create event
         return "G11-name-reuse-with-late-events"
+    for side in (0, 1):
+        sc = (job.get("scripts") or [[], []])[side]
+        for i, op in enumerate(sc):
+            if op[0] == "rename" and job.get("cfg") in ("po", "pci", "pp", "op", "plci") and \
+                    any(o2[0] == "rename" and o2[2] == op[1] and o2[1] == op[2] for o2 in sc[i + 1:]):
+                # path-id side: a file is renamed away and back; the intermediate name's create event outlives the object,
+                # after 5 punts handle_changed_is_missing revives/renames on the origin side (same mechanism as G3)
+                return "G3-missing-revive-origin-write"
+            if op[0] in ("rename", "delete") and \
+                    any((o2[0] in ("create", "mkdir") and o2[1] == op[1]) or (o2[0] == "rename" and o2[2] == op[1])
+                        for o2 in sc[i + 1:]):
+                # a file is renamed away and its old name is re-created on the same side: with a path-id peer the new object
+                # takes over the old id/path slot, entries get crossed and the engine produces .conflicted copies or stale files
+                if job.get("cfg") in ("po", "pci", "pp", "op", "plci"):
+                    return "G12-rename-then-recreate-old-name-path-ids"
+    if c["property"] == "C05" and kind == "resolver-handle-stale":
+        # create/create conflict, first attempt punted with a cached download, that side is edited again and the edit is
+        # taken in: the resolver is still handed the cached (older) bytes
+        return "G13-resolver-handed-stale-cached-download"
     if c["property"] == "C12":
         allops = [op for _, op in ops]
         if kind == "outside-modified":
@@ -55,7 +93,7 @@ def classify(c):
             # a non-empty folder moved into the root of an unfiltered id-style provider yields one event for the folder
             # only: its children are never discovered
             return "G8-folder-moved-in-children-not-discovered"
-    if c["property"] == "C07":
+    if c["property"] in ("C07", "C10"):
         kinds = [op[0] for _, op in ops]
         paths = [op[1] for _, op in ops]
         if kinds == ["write", "write"] and paths[0] == paths[1]:
